@@ -14,27 +14,27 @@ Check (C20_alone_or_not : forall i st t o m1,
     nth_error (thr (run false sched st)) i = Some t1 -> finished t1 = true ->
     nth_error (thr (run false (repeat i n) st)) i = Some t2 -> finished t2 = true ->
     out t1 = out t2 /\ dead t1 = false).
-Check (C20_entry_points : forall f mem o, writable mem = true ->
+Check (C20_entry_points : forall f mem o, writable mem = true -> plain_op o = true ->
   sem Allow (prog (S f) mem o) = Some (spec_out mem o, Allow)).
 Check (C20_scenario : forall sc sched i o,
   writable (members sc) = true ->
-  nth_error (ops sc) i = Some o ->
+  nth_error (ops sc) i = Some o -> plain_op o = true ->
   exists t', nth_error (thr (run false sched (init sc))) i = Some t' /\ dead t' = false /\ files_ok t'
              /\ (finished t' = true -> out t' = spec_out (members sc) o)
              /\ exists rest, out t' ++ rest = spec_out (members sc) o).
 Check (C20_scenario_solo : forall sh sc n i o,
   writable (members sc) = true ->
-  nth_error (ops sc) i = Some o ->
+  nth_error (ops sc) i = Some o -> plain_op o = true ->
   exists t', nth_error (thr (run sh (repeat i n) (init sc))) i = Some t' /\ dead t' = false
              /\ (finished t' = true -> out t' = spec_out (members sc) o)).
 Check (C20_scenario_coarse : forall sc cs i o t',
   writable (members sc) = true ->
-  nth_error (ops sc) i = Some o ->
+  nth_error (ops sc) i = Some o -> plain_op o = true ->
   nth_error (thr (run_coarse false cs (init sc))) i = Some t' ->
   files_ok t' /\ dead t' = false /\ (finished t' = true -> out t' = spec_out (members sc) o)).
 Check (C20_shared_guarded : forall sc sched i o,
   writable (members sc) = true ->
-  nth_error (ops sc) i = Some o ->
+  nth_error (ops sc) i = Some o -> plain_op o = true ->
   Shared_mode_race (changed0 sc) (thr (init sc)) i = false ->
   exists t', nth_error (thr (run true sched (init sc))) i = Some t' /\ dead t' = false /\ files_ok t'
              /\ (finished t' = true -> out t' = spec_out (members sc) o)
